@@ -158,7 +158,11 @@ Definition case_only (a b : path) : bool :=
 Definition probe_name : name :=
   [46; 114; 101; 110; 97; 109; 105; 102; 121; 95; 99; 97; 115; 101; 95; 116; 101; 115; 116]. (* .renamify_case_test *)
 
-(* perform_rename on a case-sensitive file system (the only kind available to the tie) *)
+(* perform_rename on a case-sensitive file system (the only kind available to the tie).
+   The probe is only attempted when neither .renamify_case_test nor .RENAMIFY_CASE_TEST exists in the
+   directory (is_case_insensitive_fs never touches an existing entry); the theorems that cover case-only
+   renames assume the probe name free (RenameP2 G5 / rename_stage_fs), which is exactly that guard, and the
+   occupied case is decided on the implementation by the direct oracle of C05. *)
 Definition rename_ops (from to : path) : list mop :=
   (if case_only from to then [MCreate (parent from ++ [probe_name]); MUnlink (parent from ++ [probe_name])] else [])
   ++ [MRename from to].
